@@ -469,7 +469,7 @@ def run_pair_check(prop, tier, seed):
             # process histories enumerated by TLC from spec/CiwHist.tla, replayed into the library
             from harness import hist
             try:
-                hist_rep, hs = hist.model_check(os.path.join(work, "hist"))
+                hist_rep, hs = hist.model_check(os.path.join(work, "hist"), tier)
             except RuntimeError as e:
                 log("MACHINERY-ERROR", str(e)[-1500:])
                 return 2
@@ -513,7 +513,7 @@ def run_pair_check(prop, tier, seed):
            "known_findings_seen": sorted(set(f["id"] for f, _, _ in kf))}
     if hist_rep:
         cov["process_history_model"] = hist_rep
-        cov["states"] += hist_rep["ideal"]["distinct"] + hist_rep["export_states"]
+        cov["states"] += hist_rep["ideal"]["distinct"] + hist_rep["export_states"] + hist_rep.get("ideal_large", {}).get("distinct", 0)
         cov["transitions"] += hist_rep["ideal"]["states"]
     ev = {"property_id": prop, "tier": tier, "seed": seed, "level": "model_checking", "coverage": cov,
           "assumptions": ["string equality of repr() is bit identity", "TLC evaluates CiwPair.tla correctly"],
